@@ -82,6 +82,9 @@ def run_full(W, cfg):
     else:
         scratch = W.complexes('scr', (Nr + 1, Nc + 2))
         o = lt.propagate_fft(w, pixelscale=du, shape=shape, oversample=os, scratch=scratch)
+        # a second wavefront through the same buffer (the next wavelength of a broadband loop) before the first result is used
+        w_b = lt.Wavefront(w.wavelength) * lt.Pupil(amplitude=A * 3 + 1, pixelscale=w.pixelscale, focal_length=w.focal_length, mask=rnp.ones(A.shape, dtype=int))
+        lt.propagate_fft(w_b, pixelscale=du, shape=shape, oversample=os, scratch=scratch)
     inten = o.intensity
     W.ob_true('shape', tuple(int(x) for x in inten.shape) == (Nr, Nc))
     total = W.sum(inten[i, j] for i in range(Nr) for j in range(Nc))
